@@ -308,11 +308,83 @@ func genC11(r *rand.Rand, tier string) []Case {
 	return cases
 }
 
+type c11Any struct {
+	M *c11Case  `json:"merger,omitempty"`
+	T *c11Tbl   `json:"tables,omitempty"`
+	F *c11Flush `json:"flush,omitempty"`
+}
+
+func (c *c11Any) inner() Case {
+	switch {
+	case c.M != nil:
+		return c.M
+	case c.T != nil:
+		return c.T
+	}
+	return c.F
+}
+func (c *c11Any) Exec()                  { c.inner().Exec() }
+func (c *c11Any) Oracle() (bool, string) { return c.inner().Oracle() }
+func (c *c11Any) Sx() string             { return c.inner().Sx() }
+func (c *c11Any) Nontrivial() bool       { return c.inner().Nontrivial() }
+func (c *c11Any) Kind() string           { return c.inner().Kind() }
+
+func genC11All(r *rand.Rand, tier string) []Case {
+	var out []Case
+	for _, c := range genC11(r, tier) {
+		out = append(out, &c11Any{M: c.(*c11Case)})
+	}
+	// real tables with a data file cut at every record boundary (with and without a zero tail)
+	nt := 6
+	nf := 2
+	if tier == "thorough" {
+		nt, nf = 60, 20
+	}
+	for i := 0; i < nt; i++ {
+		var tables [][]tblKV
+		ntab := 2 + r.Intn(2)
+		for t := 0; t < ntab; t++ {
+			var kvs []tblKV
+			for k := 0; k < 2+r.Intn(4); k++ {
+				kvs = append(kvs, tblKV{K: []byte(fmt.Sprintf("k%d-%02d", t, k)), V: []byte(fmt.Sprintf("value-%d-%d", t, k))})
+			}
+			tables = append(tables, kvs)
+		}
+		v := r.Intn(ntab)
+		for cut := 0; cut < len(tables[v]); cut++ {
+			for _, z := range []bool{false, true} {
+				out = append(out, &c11Any{T: &c11Tbl{Mode: []string{"merge", "compact"}[i%2], Tables: tables, Victim: v, Cut: cut, Zeros: z}})
+			}
+		}
+	}
+	// flushes under a file size limit: every write beyond the limit fails
+	for i := 0; i < nf; i++ {
+		var kvs []tblKV
+		for k := 0; k < 4+r.Intn(5); k++ {
+			kv := tblKV{K: []byte(fmt.Sprintf("key-%02d", k)), V: bytes.Repeat([]byte{byte('a' + k)}, 10+r.Intn(30))}
+			if r.Intn(5) == 0 {
+				kv.Nil, kv.V = true, nil
+			}
+			kvs = append(kvs, kv)
+		}
+		f := &c11Flush{KVs: kvs, Tombs: i%2 == 0}
+		step := 7
+		if tier == "thorough" {
+			step = 1
+		}
+		for lim := 0; lim < 700; lim += step {
+			f.Limits = append(f.Limits, lim)
+		}
+		out = append(out, &c11Any{F: f})
+	}
+	return out
+}
+
 func init() {
 	register(&Prop{
 		ID: "C11", Num: 11,
-		Gen: genC11,
-		New: func() Case { return &c11Case{} },
-		Rule: "for 60 (thorough 600) input sets of 1..4 ascending inputs: the fault-free run, a failing Next at every position of every input (single faults, exhaustive), a failing WriteNext at every call (exhaustive), and one sampled double fault; for Merge, MergeCompact(latest wins) and MergeCompact(skip tombstones). Non-trivial: >=2 non-empty inputs and an injected fault.",
+		Gen: genC11All,
+		New: func() Case { return &c11Any{} },
+		Rule: "for 60 (thorough 600) input sets of 1..4 ascending inputs: the fault-free run, a failing Next at every position of every input (single faults, exhaustive), a failing WriteNext at every call (exhaustive), and one sampled double fault; for Merge, MergeCompact(latest wins) and MergeCompact(skip tombstones); plus merges over real tables one of whose data files was cut at every record boundary (with and without a zero tail, opened without load validation); plus memstore flushes in a child process whose write system calls fail beyond a file-size limit, for limits 0..700 (every 7th in the quick tier). Non-trivial: >=2 non-empty inputs and an injected fault.",
 	})
 }
